@@ -63,3 +63,8 @@ func (e *Env) ResetCalls()           { e.B.Calls = nil; e.B.NCalls = 0 }
 func (e *Env) FailAt(k int)          { e.B.FailAt = k }
 func (e *Env) NCalls() int           { return e.B.NCalls }
 func (e *Env) FailureInjected() bool { return e.B.Failed }
+
+// EventMark / SameEvents: the events emitted through this environment's context between two marks.
+func (e *Env) EventMark() int { return nd.EventMark() }
+
+func SameEvents(a *Env, a0, a1 int, b *Env, b0, b1 int) bool { return nd.SameEvents(a0, a1, b0, b1) }
